@@ -242,12 +242,22 @@ CLAIMS = {
         "equations are evaluated, exchange/surface conventions, and the whole Pitzer/SIT/Gibbs-Duhem/water-activity clause (numerical)."),
   note=NOTE_COMMON + "The reference equations are the textbook definitions named in the property (Davies with 0.3 I; Debye-Hueckel with ion-size and b "
        "terms; B-dot); the comparison is by polynomial identity (engine/ratfun.py), not by text. A partial claim labelled `other`."),
+ "C19": dict(
+  technique="exact rational-function comparison (opaque sqrt/log/exp over canonicalised arguments) of every closed-form assignment of both Phreeqc::calc_PR overloads with the Peng-Robinson definitions + a polynomial identity between the pressure equation and the cubic solved for the molar volume",
+  text=("C19 as a whole is numerical and is NOT decided. Decided is the Peng-Robinson clause as far as it is written as closed-form code in the two "
+        "overloads of Phreeqc::calc_PR: (a) a = 0.457235 (R Tc)^2/Pc, b = 0.077796 R Tc/Pc, kappa = 0.37464 + 1.54226 w - 0.26992 w^2, "
+        "alpha = (1 + kappa (1 - sqrt(Tr)))^2, Tr = T/Tc at every site; (b) the one-fluid mixing rules b_sum, a_ij = sqrt(a_i alpha_i a_j alpha_j) "
+        "times the binary parameter, a_aa_sum, a_aa_sum2, x_i = n_i/n_total; (c) every pressure evaluation is R T/(V-b) - a/(V(V+2b)-b^2) and the "
+        "cubic whose root is taken as molar volume is identically that equation multiplied out (a polynomial identity between two pieces of code); "
+        "(d) z, A, B, B_r, the ln(phi) formula, partial pressure = x_i P, phi = exp(ln phi), SI correction = ln phi/ln 10 and the clamp "
+        "[ln 0.01, ln 85]. NOT decided: ideal-gas relations, the fixed-pressure existence rule, which root is selected in the two-phase region, "
+        "fugacity = 10^SI, gases in EQUILIBRIUM_PHASES (all solver outcomes)."),
+  note=NOTE_COMMON + "Literals are matched to the defining constants by value (2e-4 relative); comparison is by polynomial identity (engine/ratfun.py), so equivalent rewrites pass (benign mutant kept). Partial claim labelled `other`."),
 }
 
 NOT_APPLICABLE = {
  "C03": "equilibrium end-state (SI = target, phase present/absent, site and mole-fraction sums) is the fixed point of an inequality-constrained Newton iteration; only its numeric outcome can be judged",
  "C18": "admissibility of each reported inverse model depends on the L1 solver's numeric output for each problem",
- "C19": "equation-of-state and fugacity relations are numerical identities over the P-T range",
  "C20": "surface mass-action and charge-potential relations are numerical identities over all surfaces",
 }
 PENDING = {}
